@@ -32,6 +32,13 @@ func main() {
 		fmt.Fprintln(os.Stderr, "usage: vh <world-run|world-rand|...> [flags]")
 		os.Exit(2)
 	}
+	// keep one timer-driven goroutine alive: a replay may leave every other
+	// goroutine blocked, which the runtime would report as a fatal deadlock
+	go func() {
+		for {
+			time.Sleep(time.Hour)
+		}
+	}()
 	switch os.Args[1] {
 	case "world-run":
 		worldRun(os.Args[2:])
